@@ -173,7 +173,9 @@ OPTION_SETS = {
     'args': {'python_client': ['-m', 'client', '-c', 'C', '-t', 'pkg', '-w', 'user'],
              'js_client': ['r.js', '--wrap-response-in', 'Wrapped', '-a', 'auth'],
              'tsd_client': ['ctpl.d.ts', 'c.d.ts', '-a', 'host'],
-             'tsd_types': ['tpl.d.ts', '--export-namespaces']},
+             'tsd_types': ['tpl.d.ts', '--export-namespaces'],
+             'js_types': ['t.js'] + [x for k, v in (('auth', 'user'), ('host', 'api'), ('style', 'rpc'), ('style', 'upload')) for x in
+                                     ('-e', json.dumps({'match': [k, v], 'arg_name': 'x_' + k + '_' + v, 'arg_type': 'string', 'arg_docstring': 'extra for %s' % k}))]},
     'pre_args': {'python_client': ['-m', 'client', '-c', 'C', '-t', 'pkg', '-w', 'team'],
                  'js_client': ['r.js', '-c', 'OtherClass', '-a', 'style'],
                  'tsd_client': ['ctpl.d.ts', 'c.d.ts', '--wrap-response-in', 'W'],
@@ -274,7 +276,7 @@ def run(tier, seed):
     r.bounds['extra_seed_from_VERIF_SEED'] = extra_seed
     items = []
     for name, specs, wl in RICH:
-        items.append((name, specs, wl, all_seeds, ['fresh', 'after-unrelated', 'after-other-options', 'isolated', 'twice']))
+        items.append((name, specs, wl, all_seeds, ['fresh', 'after-unrelated', 'after-namesake', 'after-other-options', 'isolated', 'twice']))
     budget = 60 if tier == 'quick' else 400
     seen = set()
     nm = 0
@@ -290,7 +292,7 @@ def run(tier, seed):
             specs = render.render(s) + [('cfg.stone', CFG)]
             items.append(('%s:%s' % (p.name, '/'.join(tr)), specs, None, all_seeds[:4] if tier == 'quick' else all_seeds, ['fresh'] if tier == 'quick' else ['fresh', 'twice']))
             nm += 1
-    r.bounds.update({'rich_specs': len(RICH), 'machine_models': nm, 'backends': list(impl.BACKEND_RUNS), 'histories': ['fresh', 'after-unrelated', 'after-other-options (same spec, other backend options first)', 'isolated (each backend on its own freshly compiled Api instead of all backends on one Api)', 'twice (two output directories)'], 'option_sets': OPTION_SETS})
+    r.bounds.update({'rich_specs': len(RICH), 'machine_models': nm, 'backends': list(impl.BACKEND_RUNS), 'histories': ['fresh', 'after-unrelated', 'after-namesake (the same spec under other namespace names first)', 'after-other-options (same spec, other backend options first)', 'isolated (each backend on its own freshly compiled Api instead of all backends on one Api)', 'twice (two output directories)'], 'option_sets': OPTION_SETS})
     r.sample({'spec': RICH[0][0], 'files': [p for p, _ in RICH[0][1]], 'whitelist': RICH[0][2], 'seeds': all_seeds})
     r.run_tasks(task, items, budget=1800, chunksize=1)
     r.assumptions = ['object addresses are not controlled; the history dimension perturbs them', 'every run is a separate interpreter with its own PYTHONHASHSEED']
